@@ -91,6 +91,9 @@ def gen_var(rng, name, depth=0):
         else:
             s += " (*%s%s)(%s)" % (rng.choice(["", "", "* ", "* const "]), name, ", ".join(params))
         native = native and nat
+    elif r < 0.14 and name:
+        # a pointer to an array: the parentheses bind the * to the name, not to the element type
+        s += " (*%s)%s" % (name, "".join("[%d]" % rng.randint(1, 4) for _ in range(rng.choice([1, 1, 2]))))
     else:
         s += " " + name
         if rng.random() < 0.15:
@@ -234,7 +237,8 @@ def run(ctx):
     # the corpus of minimised earlier failures runs first (known findings are re-confirmed on every run; repaired ones must stay repaired)
     cases = [(k, d) for k in sorted(ctxs) if k.startswith("class:")
              for d in ("%s volatile (** const a2)(double const *)" % k.split(":", 1)[1], "%s (*fp)(int)" % k.split(":", 1)[1])]
-    cases += [(k, d) for k in sorted(ctxs) for d in ("int f(void *)", "int f(void)", "volatile int * volatile v", "const void * const * p")]
+    cases += [(k, d) for k in sorted(ctxs) for d in ("int f(void *)", "int f(void)", "volatile int * volatile v", "const void * const * p",
+                                                      "int (*a)[3]", "const char *(*names)[4]", "double (*m)[2][5]", "int sum_rows(int (*a)[3], int n)")]
     for i in range(n):
         k = rng.choice(sorted(ctxs))
         d = declcmp.gen_decl(rng) if rng.random() < 0.6 else (gen_var(rng, "v")[0] if rng.random() < 0.6 else gen_fun(rng, "f")[0])
